@@ -13,6 +13,7 @@ PROP = dict(
         "MM.C30.C30_edges",
         "MM.C30.C30_refusals",
         "MM.C30.C30_persist_quiescent",
+        "MM.C30.C30_restart_resumes",
         "MM.C30.C30_poll_never_sleeps_awake_agent",
         "MM.C30.C30_refuted",
         "MM.C30.C30_witness_reconnect",
@@ -27,7 +28,8 @@ PROP = dict(
     rule="case = a fresh real sleep.Manager (PersistState on, real state file) driven one stateMu critical section at a time: EVERY schedule "
          "of enabled steps {Sleep, Wake, Poll-begin, OnPoll-invoke, OnPoll-return, Poll-end} x 2 concurrent Poll() invocations up to depth 9 "
          "(quick) / 12 (thorough) is forced on the implementation (Poll goroutines parked at the verif scheduling point after the first unlock "
-         "and inside the OnPoll callback), plus random schedules of 8-37 steps with 1-3 Poll() invocations including disabled labels and "
+         "and inside the OnPoll callback), with process restarts (a new Manager on the same data directory + LoadState + the start-up Sleep() of "
+         "Agent.Start, with and without a graceful Stop() first) at the quiescent points, plus five fixed restart sequences, plus random schedules of 8-37 steps with 1-3 Poll() invocations including disabled labels and "
          "refused calls; agent level: the real Agent.doPoll parked at the scheduling point between its state check and DisconnectAll(), every "
          "schedule of {Sleep, Wake, doPoll-start, doPoll-release} of length 4 and random longer ones incl. WAKE_COMMAND frames through the "
          "dispatcher, with a short poll duration (doPoll times out at once) and a long one (doPoll sits in its wait until signalled); "
@@ -46,7 +48,8 @@ PROP = dict(
     ],
     assumptions=[
         "callback errors and persistState write errors are not modelled",
-        "Stop()/LoadState() (process start/stop) are outside the LTS; crash consistency of the state file is C34's subject",
+        "a restart is taken only at quiescent points (a crash in the middle of a Poll() cannot be reproduced in-process); crash consistency "
+        "of the state file itself is C34's subject",
         "agent level: doPoll is modelled as wait (ended by a WAKE_COMMAND's signalWake, not by a bare Wake()) / state check / DisconnectAll; "
         "its listener and reconnect handling (sockets) is not modelled",
     ],
